@@ -1,5 +1,208 @@
-use crate::common::Opts;
+//! C10 (E2 half): the tracker in isolation.  All well-nested event sequences (ordered forests of
+//! rule attempts and predicates) up to a bound are driven straight into
+//! `Tracker::{record_during_with, positive_during, negative_during}`; the harness-chosen outcomes
+//! are the truth the report is compared with.
+
+use crate::common::{par, viol, Opts};
 use pegx::report::Report;
-pub fn run(_o: &Opts) -> Report {
-    Report::default()
+use pest_typed::tracker::Tracker;
+use pest_typed::Position;
+use refpeg::json::J;
+
+#[derive(Clone, Copy, Debug, Eq, Hash, Ord, PartialEq, PartialOrd)]
+#[allow(clippy::upper_case_acronyms)]
+pub enum R {
+    EOI,
+    A,
+    B,
+}
+
+const INPUT: &str = "é\r\nb€";
+const POSITIONS: [usize; 3] = [0, 2, 4];
+
+#[derive(Clone, Debug)]
+enum Ev {
+    Rule { rule: R, pos: usize, ok: bool, kids: Vec<Ev> },
+    Pos(Vec<Ev>),
+    Neg(Vec<Ev>),
+}
+
+fn labels() -> Vec<Ev> {
+    let mut v = vec![];
+    for rule in [R::A, R::B] {
+        for pos in POSITIONS {
+            for ok in [true, false] {
+                v.push(Ev::Rule { rule, pos, ok, kids: vec![] });
+            }
+        }
+    }
+    v.push(Ev::Pos(vec![]));
+    v.push(Ev::Neg(vec![]));
+    v
+}
+
+fn with_kids(e: &Ev, kids: Vec<Ev>) -> Ev {
+    match e {
+        Ev::Rule { rule, pos, ok, .. } => Ev::Rule { rule: *rule, pos: *pos, ok: *ok, kids },
+        Ev::Pos(_) => Ev::Pos(kids),
+        Ev::Neg(_) => Ev::Neg(kids),
+    }
+}
+
+/// All ordered forests with exactly `n` nodes.
+fn forests(n: usize, labels: &[Ev], memo: &mut Vec<Option<Vec<Vec<Ev>>>>) -> Vec<Vec<Ev>> {
+    if let Some(Some(v)) = memo.get(n) {
+        return v.clone();
+    }
+    let mut out = vec![];
+    if n == 0 {
+        out.push(vec![]);
+    } else {
+        // first tree has k nodes (1 root + k-1 in its children forest), the rest n-k
+        for k in 1..=n {
+            let kids = forests(k - 1, labels, memo);
+            let rest = forests(n - k, labels, memo);
+            for l in labels {
+                for kf in &kids {
+                    let root = with_kids(l, kf.clone());
+                    for r in &rest {
+                        let mut f = vec![root.clone()];
+                        f.extend(r.iter().cloned());
+                        out.push(f);
+                    }
+                }
+            }
+        }
+    }
+    while memo.len() <= n {
+        memo.push(None);
+    }
+    memo[n] = Some(out.clone());
+    out
+}
+
+fn drive<'i>(t: &mut Tracker<'i, R>, f: &[Ev]) {
+    for e in f {
+        match e {
+            Ev::Rule { rule, pos, ok, kids } => {
+                let p = Position::new(INPUT, *pos).unwrap();
+                let _ = t.record_during_with(
+                    p,
+                    |t| {
+                        drive(t, kids);
+                        if *ok {
+                            Some(())
+                        } else {
+                            None
+                        }
+                    },
+                    *rule,
+                );
+            }
+            Ev::Pos(kids) => t.positive_during(|t| drive(t, kids)),
+            Ev::Neg(kids) => t.negative_during(|t| drive(t, kids)),
+        }
+    }
+}
+
+fn collect_truth(f: &[Ev], out: &mut Vec<(R, usize, bool)>) {
+    for e in f {
+        match e {
+            Ev::Rule { rule, pos, ok, kids } => {
+                out.push((*rule, *pos, *ok));
+                collect_truth(kids, out);
+            }
+            Ev::Pos(k) | Ev::Neg(k) => collect_truth(k, out),
+        }
+    }
+}
+
+fn show(f: &[Ev]) -> String {
+    let mut s = String::new();
+    for e in f {
+        match e {
+            Ev::Rule { rule, pos, ok, kids } => s.push_str(&format!("{:?}@{}{}[{}] ", rule, pos, if *ok { "+" } else { "-" }, show(kids))),
+            Ev::Pos(k) => s.push_str(&format!("&[{}] ", show(k))),
+            Ev::Neg(k) => s.push_str(&format!("![{}] ", show(k))),
+        }
+    }
+    s.trim_end().to_string()
+}
+
+fn check(f: &Vec<Ev>, rep: &mut Report) {
+    rep.cases += 1;
+    let what = show(f);
+    let run = || {
+        let mut t = Tracker::<R>::new(Position::from_start(INPUT));
+        drive(&mut t, f);
+        t
+    };
+    let r = std::panic::catch_unwind(|| {
+        let (pos, attempts) = run().finish();
+        let lists: Vec<(Option<R>, Vec<R>, Vec<R>)> = attempts.into_iter().map(|(u, (p, n, _))| (u, p, n)).collect();
+        let err = run().collect();
+        let text = err.to_string();
+        let loc = match err.location {
+            pest::error::InputLocation::Pos(p) => p,
+            pest::error::InputLocation::Span((p, _)) => p,
+        };
+        (pos.pos(), lists, loc, text)
+    });
+    let (pos, lists, loc, text) = match r {
+        Ok(x) => x,
+        Err(_) => {
+            rep.violation(viol("C10", "tracker-panic", INPUT, what, 0, 0, "a report".into(), "panic".into(), String::new()));
+            return;
+        }
+    };
+    // determinism
+    let again = std::panic::catch_unwind(|| run().collect().to_string());
+    if again.ok().as_deref() != Some(text.as_str()) {
+        rep.violation(viol("C10", "tracker-report-not-deterministic", INPUT, what.clone(), 0, 0, text.clone(), "different".into(), String::new()));
+    }
+    let mut truth = vec![];
+    collect_truth(f, &mut truth);
+    if !(pos <= INPUT.len() && INPUT.is_char_boundary(pos)) || loc != pos {
+        rep.violation(viol("C10", "tracker-location", INPUT, what.clone(), 0, 0, "a boundary inside the input, equal to the raw position".into(), format!("raw {} error {}", pos, loc), String::new()));
+    }
+    let mut listed = 0;
+    for (_, positives, negatives) in &lists {
+        for r in positives {
+            listed += 1;
+            if !truth.iter().any(|(tr, tp, ok)| tr == r && *tp == pos && !*ok) {
+                rep.violation(viol("C10", "tracker-expected-rule-did-not-fail-there", INPUT, what.clone(), 0, 0, format!("a failed attempt of {:?} at {}", r, pos), format!("{:?}", lists), text.clone()));
+            }
+        }
+        for r in negatives {
+            listed += 1;
+            if !truth.iter().any(|(tr, tp, ok)| tr == r && *tp == pos && *ok) {
+                rep.violation(viol("C10", "tracker-unexpected-rule-did-not-match-there", INPUT, what.clone(), 0, 0, format!("a successful attempt of {:?} at {}", r, pos), format!("{:?}", lists), text.clone()));
+            }
+        }
+    }
+    if listed > 0 {
+        rep.nontrivial += 1;
+    }
+    rep.outcome(format!("{}:{:?}", pos, lists));
+    if rep.samples.len() < 2 && listed >= 2 {
+        let mut j = J::obj();
+        j.set("events", J::s(&what));
+        j.set("position", J::i(pos as u64));
+        j.set("attempts", J::s(&format!("{:?}", lists)));
+        rep.sample(j);
+    }
+}
+
+pub fn run(o: &Opts) -> Report {
+    let labels = labels();
+    let mut memo = vec![];
+    let nmax = if o.thorough { 4 } else { 3 };
+    let mut all: Vec<Vec<Ev>> = vec![];
+    for n in 1..=nmax {
+        all.extend(forests(n, &labels, &mut memo));
+    }
+    let mut rep = par(&all, check);
+    rep.rules = all.len() as u64;
+    rep.cells.insert("max_nodes_per_forest".into(), nmax as u64);
+    rep
 }
